@@ -333,6 +333,77 @@ def run_signature_pairs(w) -> None:
         async_l.unload()
 
 
+NESTED_SOURCE = '''
+import icontract
+
+
+@icontract.invariant(lambda self: HUB.inv("inv", self) and self.x > 0)
+class K(icontract.DBC):
+    def __init__(self):
+        self.x = 1
+
+    {a}def inner(self):
+        HUB.body("inner", {{"x": self.x}})
+        return self.x
+
+    @property
+    def prop(self):
+        HUB.body("prop", {{"x": self.x}})
+        return self.x
+
+    {a}def outer(self):
+        """Breaks the invariant temporarily; calls other public members of the same object in between."""
+        HUB.body("outer:start", {{"x": self.x}})
+        self.x = -1
+        first = {w}self.inner()
+        second = self.prop
+        self.x = 70
+        HUB.body("outer:end", {{"x": self.x}})
+        return (first, second)
+
+    {a}def twice(self):
+        return ({w}self.inner(), {w}self.outer())
+
+
+class L(K):
+    {a}def inner(self):
+        HUB.body("L.inner", {{"x": self.x}})
+        return {w}super().inner()
+'''
+
+
+def run_nested_pairs(w) -> None:
+    """Public methods calling public members of the same object from their body (while the invariant is temporarily broken): the
+    `async def` rendering must give the trace and the outcome of the `def` rendering."""
+    sync_l = prog.load_source(NESTED_SOURCE.format(a="", w=""), w.scratch())
+    async_l = prog.load_source(NESTED_SOURCE.format(a="async ", w="await "), w.scratch())
+    try:
+        for cname in ("K", "L"):
+            for mname in ("outer", "twice", "inner"):
+                traces = []
+                for loaded in (sync_l, async_l):
+                    obj = getattr(loaded.module, cname)()
+                    loaded.hub.reset()
+                    try:
+                        res = getattr(obj, mname)()
+                        if inspect.iscoroutine(res):
+                            res = probe.drive(res)
+                        outcome = "return {!r}".format(res)
+                    except BaseException as err:  # pylint: disable=broad-except
+                        outcome = "raise " + type(err).__name__
+                    traces.append(([(e.kind, e.id) for e in loaded.hub.events], outcome))
+                w.count("pairs_compared")
+                w.count("nested_pairs_compared")
+                w.count("events_compared", len(traces[0][0]))
+                w.case(("nested-pair", cname, mname))
+                if traces[0] != traces[1]:
+                    w.violation("C13/nested-calls-on-the-same-object-differ-in-the-async-rendering", "{}().{}(): sync {} vs async {}".format(
+                        cname, mname, traces[0], traces[1]), {"nested_pair": mname})
+    finally:
+        sync_l.unload()
+        async_l.unload()
+
+
 def specs(w):
     rng = w.rng
     thorough = w.tier == "thorough"
@@ -369,12 +440,16 @@ def run(w) -> None:
         run_async_on_sync(w)
         run_coroutine_invariants(w)
         run_signature_pairs(w)
+        run_nested_pairs(w)
     w.exhaustive = False
 
 
 def replay(case, w) -> None:
     if "signature_pair" in case:
         run_signature_pairs(w)
+        return
+    if "nested_pair" in case:
+        run_nested_pairs(w)
         return
     if "coroutine_invariant" in case:
         run_coroutine_invariants(w)
